@@ -135,10 +135,11 @@ def copy_signal(signal_glob, source_db, target_db):
             target_db.add_signal(target_signal)
 
             for attribute in source_db.signal_defines:
-                target_db.add_signal_defines(
-                    copy.deepcopy(attribute), copy.deepcopy(source_db.signal_defines[attribute].definition))
-                target_db.add_define_default(
-                    copy.deepcopy(attribute), copy.deepcopy(source_db.signal_defines[attribute].defaultValue))
+                if attribute not in target_db.signal_defines:
+                    target_db.add_signal_defines(
+                        copy.deepcopy(attribute), copy.deepcopy(source_db.signal_defines[attribute].definition))
+                    target_db.add_define_default(
+                        copy.deepcopy(attribute), copy.deepcopy(source_db.signal_defines[attribute].defaultValue))
                 # update enum data types if needed:
                 if source_db.signal_defines[attribute].type == 'ENUM':
                     temp_attr = source_signal.attribute(attribute, db=source_db)
@@ -218,10 +219,11 @@ def copy_frame(frame_id, source_db, target_db):
             for attribute in source_db.signal_defines:
                 if sig.attribute(attribute, source_db) is None:
                     continue
-                target_db.add_signal_defines(
-                    copy.deepcopy(attribute), copy.deepcopy(source_db.signal_defines[attribute].definition))
-                target_db.add_define_default(
-                    copy.deepcopy(attribute), copy.deepcopy(source_db.signal_defines[attribute].defaultValue))
+                if attribute not in target_db.signal_defines:
+                    target_db.add_signal_defines(
+                        copy.deepcopy(attribute), copy.deepcopy(source_db.signal_defines[attribute].definition))
+                    target_db.add_define_default(
+                        copy.deepcopy(attribute), copy.deepcopy(source_db.signal_defines[attribute].defaultValue))
                 # update enum data types if needed:
                 if source_db.signal_defines[attribute].type == 'ENUM':
                     temp_attr = sig.attribute(attribute, db=source_db)
